@@ -256,7 +256,8 @@ def run_files(spec, rec, lib):
     C, M = lib.common, lib.metadata_construction
     d = spec["scratch"]
     for i in range(spec["count"]):
-        names = vlib.fs_names(["key%d", "signer.%d", "5.root.%d", "a.b.c%d", "key%d.pri", "k e y %d", "cl\u00e9%d", ".hidden%d", "signer.v%d.json"])
+        names = vlib.fs_names(["key%d", "signer.%d", "5.root.%d", "a.b.c%d", "key%d.pri", "k e y %d", "cl\u00e9%d", ".hidden%d", "signer.v%d.json",
+                                "cle\u0301%d", "\u212bngstrom%d", "\u2126hm%d"])
         base = os.path.join(d, names[i % len(names)] % i)
         # the target names may already exist (older key files of other sizes / formats, e.g. a hex-encoded key)
         pre = ["none", "longer_hex", "shorter", "same_size", "much_longer"][i % 5]
@@ -265,9 +266,16 @@ def run_files(spec, rec, lib):
                 with open(base + ext, "wb") as fh:
                     fh.write({"longer_hex": b"ab" * 32 + b"\n", "shorter": b"\x01" * 7, "same_size": b"\x02" * 32, "much_longer": b"\x03" * 4096}[pre])
         rec.hist("preexisting_keyfile", pre)
+        listing_before = set(os.listdir(d))
         o = boundary.call(lib, M.gen_and_write_keys, base)
         rec.case("files|%d" % i)
         case = {"kind": "files"}
+        gained = set(os.listdir(d)) - listing_before
+        bn = os.path.basename(base)
+        if o.accepted and gained and not all(g.startswith(bn) for g in gained):
+            # key files appeared under ANOTHER name than the one given (e.g. a normalised respelling of it)
+            viol(rec, "keyfiles/written-under-another-name", "gen_and_write_keys(%r) created %r" % (bn, sorted(gained)), case)
+            continue
         if not o.accepted:
             viol(rec, boundary.mechanism("keyfiles", "gen_and_write_keys", "return", o), "key generation failed", case)
             continue
